@@ -223,6 +223,24 @@ func (g *progGen) exprs(vars map[string]int, order []string, errProne bool) []SE
 			default:
 				out = append(out, SExpr{val(aVar(v)), SOp{Kind: 1, Un: 2}, val(aInt(3)), bin(2)})
 			}
+		case KSet:
+			// operations on a set bound through a variable (the value then belongs to a fact):
+			// intersection / union with a constant on either side, membership, self-equality
+			k := aSet(aInt(int64(1+r.Intn(3))), aInt(int64(2+r.Intn(3))))
+			switch r.Intn(6) {
+			case 0:
+				out = append(out, SExpr{val(aVar(v)), val(k), bin(15), SOp{Kind: 1, Un: 2}, val(aInt(int64(r.Intn(3)))), bin(r.Intn(5))})
+			case 1:
+				out = append(out, SExpr{val(k), val(aVar(v)), bin(15), SOp{Kind: 1, Un: 2}, val(aInt(int64(r.Intn(3)))), bin(r.Intn(5))})
+			case 2:
+				out = append(out, SExpr{val(aVar(v)), val(k), bin(16), SOp{Kind: 1, Un: 2}, val(aInt(int64(1+r.Intn(4)))), bin(r.Intn(5))})
+			case 3:
+				out = append(out, SExpr{val(aVar(v)), val(aInt(int64(r.Intn(4)))), bin(5)})
+			case 4:
+				out = append(out, SExpr{val(aVar(v)), val(k), bin(15), val(aInt(int64(1+r.Intn(3)))), bin(5)})
+			default:
+				out = append(out, SExpr{val(aVar(v)), val(aVar(v)), bin(4)})
+			}
 		default:
 			if errProne {
 				out = append(out, SExpr{val(aVar(v)), val(aInt(1)), bin(0)}) // ill-typed comparison
